@@ -20,7 +20,7 @@ for i in ids:
     try:
         for p in props:
             t0 = time.time()
-            r = subprocess.run(["./check", p, "--tier", "quick"], cwd=HERE, capture_output=True, text=True, env=dict(os.environ, PYP0F_REPO=REPO))
+            r = subprocess.run(["./check", p, "--tier", "quick"], cwd=HERE, capture_output=True, text=True, env=dict(os.environ, PYP0F_REPO=REPO, VERIF_EVIDENCE_DIR=HERE + "/work/evidence-seeded"))
             viol = [l for l in r.stdout.split("\n") if l.startswith("VIOLATION")]
             kinds = [l.strip()[3:] for l in r.stderr.split("\n") if l.strip().startswith("-> ")]
             matrix.setdefault(i, {})[p] = {"rc": r.returncode, "violations": len(viol), "first": kinds[0] if kinds else None, "s": round(time.time() - t0, 1)}
